@@ -249,6 +249,10 @@ def run(prog, tier, extra=None):
             res.sample({"rule": R3, "scan": sorted(set(cr.loc(x) for x in scan_blocks))[:3], "additions": sorted(set(cr.loc(x) for x in tx_adds))[:6],
                         "verdict": "nothing is added to block.transactions after the scan"})
 
+    # producer and validator agree only if cached per-transaction values are the ones the validator recomputes
+    from ._include import include
+    include(res, prog, tier, extra, "c14", ["C14.cached-work"],
+            "the producer bundles with cached routing work; the validator recomputes it: a stale cache makes the node reject its own block")
     res.explanation = (
         "Decides that producer and validator are siblings of one computation: same callee for consensus values and for the required work (with matching argument "
         "provenance), and for every header field the validator compares with a consensus value the producer fills that field from the same consensus value (directly, or by "
